@@ -55,6 +55,8 @@ def run_one(ck, tm, tier, ws):
     for b in tm.facts.fn_bodies():
         for name, foreign, local, t in tm.facts.callees_of(b):
             if "atomic::Atomic" in name and name.split("::")[-1] in ("store", "swap", "fetch_add", "fetch_sub", "compare_exchange", "fetch_update"):
+                if receiver_is_library_static(b, t):
+                    continue          # an atomic of the library's own (a diagnostics counter, a cache): it cannot be a fake's per-expansion static
                 writers.append((b["path"], name))
     # helpers all of whose crate-local callers are (transitively) installation entry points are part of the installation
     callers = {}
@@ -117,6 +119,38 @@ def mentions(e, sub):
     if e == sub:
         return True
     return any(mentions(a, sub) for a in e.args if isinstance(a, E))
+
+
+def receiver_is_library_static(body, t):
+    """Is the receiver of this call `&STATIC` for a static item of the analysed crate (followed through the temporaries rustc
+    introduces: _a = &*_b; _b = const {alloc: &STATIC})?"""
+    def src_of(l, depth=0):
+        if depth > 4:
+            return None
+        for blk in body["blocks"]:
+            for st in blk["stmts"]:
+                if st.get("k") == "assign" and st["place"]["l"] == l and not st["place"]["p"]:
+                    rv = st["rv"]
+                    if rv.get("k") in ("ref", "rawptr", "copy_for_deref"):
+                        return src_of(rv["place"]["l"], depth + 1)
+                    if rv.get("k") == "use":
+                        op = rv["op"]
+                        if op.get("k") == "const":
+                            return op.get("val")
+                        if op.get("k") in ("copy", "move"):
+                            return src_of(op["place"]["l"], depth + 1)
+                    return None
+        return None
+    a0 = t["args"][0] if t.get("args") else None
+    if not a0:
+        return False
+    if a0.get("k") == "const":
+        v = a0.get("val")
+    elif a0.get("k") in ("copy", "move"):
+        v = src_of(a0["place"]["l"])
+    else:
+        v = None
+    return isinstance(v, dict) and v.get("k") == "static"
 
 
 def install_resets_counter(ck, tm, rule, in_expansion=False):
